@@ -769,6 +769,10 @@ def polynomial_arith_rule(model, deep=False):
             return isinstance(v, Obj)
         if isinstance(c, Opaque) and c.what == "class FieldTraits":
             return True        # coefficients drawn from a field
+        from .absint import default_isinstance
+        r = default_isinstance(v, c)
+        if r is not None:
+            return r
         raise AnalysisError(f"isinstance(..., {c!r})")
 
     def quotient(it, node, args, kw):
